@@ -1,0 +1,165 @@
+//! Verification hooks. Compiled only with `--cfg gdsl_verif`; nothing in here
+//! exists in a normal build.
+//!
+//! * [`RwLock`] is a drop-in wrapper around `std::sync::RwLock` used by the two
+//!   sync node modules when the guard is on. It reports every acquisition
+//!   attempt, every successful acquisition and every guard release to a
+//!   thread-local [`LockHook`], if one is installed. Without a hook it simply
+//!   delegates to the std lock.
+//! * [`set_hash_seed`] installs a thread-local seed that the `Graph`
+//!   containers use for their hash maps, so that container iteration order is
+//!   reproducible and enumerable by a harness.
+
+use std::cell::{Cell, RefCell};
+use std::ops::{Deref, DerefMut};
+use std::rc::Rc;
+use std::sync::{LockResult, PoisonError};
+
+#[derive(Clone, Copy, Debug, PartialEq, Eq, Hash)]
+pub enum Mode {
+    Read,
+    Write,
+}
+
+/// Callbacks invoked on the thread that performs the lock operation.
+/// `lock` identifies the lock for the lifetime of the lock (its address).
+pub trait LockHook {
+    /// Called before the thread starts to acquire `lock`. May block.
+    fn before_acquire(&self, lock: usize, mode: Mode);
+    /// Called right after the lock was acquired (also if it is poisoned).
+    fn acquired(&self, lock: usize, mode: Mode);
+    /// Called right after a guard of `lock` has been released.
+    fn released(&self, lock: usize, mode: Mode);
+}
+
+thread_local! {
+    static HOOK: RefCell<Option<Rc<dyn LockHook>>> = const { RefCell::new(None) };
+    static HASH_SEED: Cell<Option<u64>> = const { Cell::new(None) };
+}
+
+/// Installs (or removes) the lock hook of the calling thread.
+pub fn set_lock_hook(hook: Option<Rc<dyn LockHook>>) {
+    HOOK.with(|h| *h.borrow_mut() = hook);
+}
+
+fn hook() -> Option<Rc<dyn LockHook>> {
+    HOOK.try_with(|h| h.borrow().clone()).ok().flatten()
+}
+
+/// Installs (or removes) the container hash seed of the calling thread.
+pub fn set_hash_seed(seed: Option<u64>) {
+    HASH_SEED.with(|s| s.set(seed));
+}
+
+/// Hasher state for a new container, if a seed is installed.
+pub fn hash_state() -> Option<ahash::RandomState> {
+    HASH_SEED
+        .with(|s| s.get())
+        .map(|s| ahash::RandomState::with_seeds(s, 1, 2, 3))
+}
+
+pub struct RwLock<T> {
+    inner: std::sync::RwLock<T>,
+}
+
+pub struct RwLockReadGuard<'a, T> {
+    guard: Option<std::sync::RwLockReadGuard<'a, T>>,
+    id: usize,
+}
+
+pub struct RwLockWriteGuard<'a, T> {
+    guard: Option<std::sync::RwLockWriteGuard<'a, T>>,
+    id: usize,
+}
+
+impl<T> RwLock<T> {
+    pub fn new(t: T) -> Self {
+        RwLock {
+            inner: std::sync::RwLock::new(t),
+        }
+    }
+
+    fn id(&self) -> usize {
+        self as *const _ as usize
+    }
+
+    pub fn read(&self) -> LockResult<RwLockReadGuard<'_, T>> {
+        let id = self.id();
+        let hook = hook();
+        if let Some(h) = &hook {
+            h.before_acquire(id, Mode::Read);
+        }
+        let res = self.inner.read();
+        if let Some(h) = &hook {
+            h.acquired(id, Mode::Read);
+        }
+        match res {
+            Ok(g) => Ok(RwLockReadGuard { guard: Some(g), id }),
+            Err(p) => Err(PoisonError::new(RwLockReadGuard {
+                guard: Some(p.into_inner()),
+                id,
+            })),
+        }
+    }
+
+    pub fn write(&self) -> LockResult<RwLockWriteGuard<'_, T>> {
+        let id = self.id();
+        let hook = hook();
+        if let Some(h) = &hook {
+            h.before_acquire(id, Mode::Write);
+        }
+        let res = self.inner.write();
+        if let Some(h) = &hook {
+            h.acquired(id, Mode::Write);
+        }
+        match res {
+            Ok(g) => Ok(RwLockWriteGuard { guard: Some(g), id }),
+            Err(p) => Err(PoisonError::new(RwLockWriteGuard {
+                guard: Some(p.into_inner()),
+                id,
+            })),
+        }
+    }
+
+    pub fn is_poisoned(&self) -> bool {
+        self.inner.is_poisoned()
+    }
+}
+
+impl<T> Deref for RwLockReadGuard<'_, T> {
+    type Target = T;
+    fn deref(&self) -> &T {
+        self.guard.as_ref().unwrap()
+    }
+}
+
+impl<T> Deref for RwLockWriteGuard<'_, T> {
+    type Target = T;
+    fn deref(&self) -> &T {
+        self.guard.as_ref().unwrap()
+    }
+}
+
+impl<T> DerefMut for RwLockWriteGuard<'_, T> {
+    fn deref_mut(&mut self) -> &mut T {
+        self.guard.as_mut().unwrap()
+    }
+}
+
+impl<T> Drop for RwLockReadGuard<'_, T> {
+    fn drop(&mut self) {
+        drop(self.guard.take());
+        if let Some(h) = hook() {
+            h.released(self.id, Mode::Read);
+        }
+    }
+}
+
+impl<T> Drop for RwLockWriteGuard<'_, T> {
+    fn drop(&mut self) {
+        drop(self.guard.take());
+        if let Some(h) = hook() {
+            h.released(self.id, Mode::Write);
+        }
+    }
+}
